@@ -31,6 +31,7 @@ EXPECT = {
     "LoadPolicies keeps the meaning": ["C04"],
     "keeps its rules after Authorize": ["C03"],
     "adds the loaded checks and policies": ["C04"],
+    "starts no escape sequence": ["C14"],
 }
 def sh(cmd, **kw):
     return subprocess.run(cmd, shell=True, capture_output=True, text=True, **kw)
